@@ -591,6 +591,12 @@ func histRandom(r *rng, profile string) histScn {
 	if r.chance(1, 8) {
 		s.pau = int64(r.pick(750, 2500, 50250)) * (ms / 1000) // pause times that are not whole milliseconds
 	}
+	if r.chance(1, 10) {
+		s.capi = int64(r.pick(2500, 33333, 100250)) * (ms / 1000) // intervals that are not whole milliseconds
+	}
+	if r.chance(1, 10) {
+		s.audit = int64(r.pick(150500, 333333)) * (ms / 1000)
+	}
 	s.eof = r.chance(1, 4)
 	s.noBatchEvents = r.chance(1, 7)
 	s.mcb = 0
@@ -704,6 +710,10 @@ func histRandom(r *rng, profile string) histScn {
 		s.lst = "pause:X"
 	case 3:
 		s.lst = "resume:PX"
+	case 4:
+		s.lst = "pause:P" // a second Pause() while the pause event of the first is still being delivered
+	case 5:
+		s.lst = "pause:PF"
 	}
 	// probes around the write-off instants: batches are raised at flush ticks, so sample at tick + MaxOperationTime -1ns/0/+1ns
 	if started && r.chance(1, 2) {
